@@ -63,7 +63,7 @@ fn pick_prefixes(tables: &TableManager) -> (Vec<u8>, Vec<u8>) {
 type Key = (IpAddr, String, u32);
 
 fn attr_fp(a: &Arc<Vec<packet::Attribute>>) -> String {
-    a.iter().map(|x| crate::verif::vx::report::hex(&x.encode_to_bytes())).collect::<Vec<_>>().join(".")
+    crate::verif::vx::report::hex(&a.iter().flat_map(|x| x.encode_to_bytes()).collect::<Vec<u8>>())
 }
 
 struct Folded {
@@ -73,18 +73,45 @@ struct Folded {
     trace: Vec<String>,
 }
 
+/// What a subscriber ends up with.  The events up to EndOfSnapshot are accumulated by the BMP
+/// client's OWN snapshot code (bmp.rs apply_snapshot / flush_peer_snapshot, reached through the
+/// in-crate hook crate::bmp::verif_bmp), the live events after it are applied one by one.
 fn fold(rx: &mut mpsc::UnboundedReceiver<BgpEvent>) -> Folded {
     let mut f = Folded { pre: BTreeMap::new(), post: BTreeMap::new(), n_events: 0, trace: Vec::new() };
+    let mut events: Vec<BgpEvent> = Vec::new();
     while let Ok(ev) = rx.try_recv() {
         f.n_events += 1;
-        match ev {
-            BgpEvent::AdjRibIn(c) | BgpEvent::AdjRibInPost(c) if false => {
-                let _ = c;
+        match &ev {
+            BgpEvent::AdjRibIn(c) => {
+                for n in &c.nlris {
+                    f.trace.push(format!("pre:{}:{}:{}", c.source.remote_addr, n.nlri, if c.attrs.is_some() { "reach" } else { "withdraw" }));
+                }
             }
+            BgpEvent::AdjRibInPost(c) => {
+                for n in &c.nlris {
+                    f.trace.push(format!("post:{}:{}:{}", c.source.remote_addr, n.nlri, if c.attrs.is_some() { "reach" } else { "withdraw" }));
+                }
+            }
+            BgpEvent::PeerDown(d) => f.trace.push(format!("peerdown:{}", d.peer_addr)),
+            BgpEvent::EndOfSnapshot => f.trace.push("end-of-snapshot".into()),
+            _ => {}
+        }
+        events.push(ev);
+    }
+    let had_snapshot = events.iter().any(|e| matches!(e, BgpEvent::EndOfSnapshot));
+    let rest = if had_snapshot {
+        let (pre, post, rest) = crate::bmp::verif_bmp::snapshot_views(&mut events);
+        f.pre = pre.into_iter().map(|(k, v)| (k, crate::verif::vx::report::hex(&v))).collect();
+        f.post = post.into_iter().map(|(k, v)| (k, crate::verif::vx::report::hex(&v))).collect();
+        rest
+    } else {
+        events
+    };
+    for ev in rest {
+        match ev {
             BgpEvent::AdjRibIn(c) => {
                 for n in &c.nlris {
                     let k = (c.source.remote_addr, format!("{}", n.nlri), n.path_id);
-                    f.trace.push(format!("pre:{}:{}:{}", c.source.remote_addr, n.nlri, if c.attrs.is_some() { "reach" } else { "withdraw" }));
                     match &c.attrs {
                         Some(a) => {
                             f.pre.insert(k, attr_fp(a));
@@ -98,7 +125,6 @@ fn fold(rx: &mut mpsc::UnboundedReceiver<BgpEvent>) -> Folded {
             BgpEvent::AdjRibInPost(c) => {
                 for n in &c.nlris {
                     let k = (c.source.remote_addr, format!("{}", n.nlri), n.path_id);
-                    f.trace.push(format!("post:{}:{}:{}", c.source.remote_addr, n.nlri, if c.attrs.is_some() { "reach" } else { "withdraw" }));
                     match &c.attrs {
                         Some(a) => {
                             f.post.insert(k, attr_fp(a));
@@ -110,11 +136,9 @@ fn fold(rx: &mut mpsc::UnboundedReceiver<BgpEvent>) -> Folded {
                 }
             }
             BgpEvent::PeerDown(d) => {
-                f.trace.push(format!("peerdown:{}", d.peer_addr));
                 f.pre.retain(|k, _| k.0 != d.peer_addr);
                 f.post.retain(|k, _| k.0 != d.peer_addr);
             }
-            BgpEvent::EndOfSnapshot => f.trace.push("end-of-snapshot".into()),
             _ => {}
         }
     }
